@@ -1287,7 +1287,8 @@ impl<D: TextDecorator> SubRenderer<D> {
 
     pub fn width_minus(&self, prefix_len: usize, min_width: usize) -> Result<usize> {
         let new_width = self.width.saturating_sub(prefix_len);
-        if new_width < min_width && !self.options.allow_width_overflow {
+        // The prefix itself has to fit as well, even if the content needs no room.
+        if (new_width < min_width || prefix_len > self.width) && !self.options.allow_width_overflow {
             return Err(TooNarrow);
         }
         Ok(new_width.max(min_width))
